@@ -21,49 +21,72 @@ def P(flavour, level, quick, thorough, rule, measure, simulated, probes=(), assu
     return d
 
 PROPS = {
-    "C06": P("asan", "exploration", (24000, 20), (6000000, 420),
+    "C06": P("asan", "exploration", (120000, 25), (6000000, 420),
              "seeded histories of 8-63 core construction/edit/query calls (arguments interpreted modulo live state) against the list/map model; refinement checked after every step. A case is distinct by the hash of the whole model state after the step and non-trivial when the step mutated a container that then holds >= 2 items (or >= 1 after a removal).",
              "hash of the model state (all live trees) after a non-trivial mutating step",
              [SIM_ALLOC], probes=["detach_last", "detach_first", "insert_at_0", "replace_only_child", "case_folded_match", "insert_self", "reference_node_created", "constant_key", "setvaluestring_grow"]),
 
-    "C07": P("asan", "exploration", (16000, 20), (4000000, 420),
+    "C07": P("asan", "exploration", (100000, 25), (4000000, 420),
              "seeded histories of core calls plus parse, print, duplicate, delete, reference nodes, constant keys from a canaried caller pool, string references and key arguments aliasing the moved item's own key; the allocator ledger is the oracle after every step (wrong/double/foreign release), freed custom blocks stay poisoned for the whole run (touch-after-release is an ASan report), the pool is compared byte for byte, and at the end every root is deleted and the live set must be empty. Distinct by model-state hash after a step; non-trivial as in C06.",
              "hash of the model state after a non-trivial mutating step",
              [SIM_ALLOC, SIM_IN], probes=["alias_key_add", "alias_key_replace", "reference_node_created", "constant_key", "dup_of_reference", "setvaluestring_grow", "detach_last"]),
-    "C14": P("asan", "exploration", (8000, 20), (2000000, 420),
+    "C14": P("asan", "exploration", (40000, 25), (2000000, 420),
              "a run is 2-4 epochs; each starts with an empty ledger and a hook configuration drawn from {default, both custom, malloc only, free only, NULL members, reset}, then runs a history over core and Utils calls; every allocator entry is checked against the routing the configuration allows (libc functions never called on the library's behalf under custom hooks, realloc only in the default configuration, every release reaches the counterpart of the function that allocated the block). Distinct by model-state hash.",
              "hash of the model state after a non-trivial mutating step, across hook configurations",
              [SIM_ALLOC, SIM_IN], probes=["sorted", "patch_succeeded"]),
-    "C04": P("asan", "exploration", (10000, 25), (2500000, 480),
+    "C04": P("asan", "exploration", (40000, 30), (2500000, 480),
              "trees of every provenance (constructors, helpers, edits, parser, duplicate; depth up to 1000) are printed with Print, PrintUnformatted, PrintBuffered (prebuffer from {0,1,2,len-1,len,len+1,256,...}) and PrintPreallocated under both allocator configurations (default with realloc moving / shrinking in place; custom hooks without realloc); all byte streams must agree, parse back to an equal tree (numbers within 2^-52 relative, exact for integers below 1e15) and re-print byte-identically. Distinct by (tree hash, home allocator configuration); non-trivial when the tree is a container with a non-integer number or a string needing escapes/high bytes.",
              "hash of (printed tree, allocator configuration) for non-trivial trees",
              [SIM_ALLOC, SIM_IN, SIM_OUT], probes=["text_crosses_256", "deep_tree_built"]),
-    "C05": P("asan", "exploration", (10000, 25), (2500000, 480),
+    "C05": P("asan", "exploration", (60000, 30), (2500000, 480),
              "trees with valid UTF-8 strings and possibly non-finite numbers are printed by all variants; an independent strict RFC 8259 reader must accept each text and decode it to the model value (non-finite -> null), the formatted text minus insignificant whitespace must equal the unformatted text, buffered/preallocated bytes must equal the plain ones, integer-valued numbers in int range must be plain decimal integers. Distinct by tree hash; non-trivial when the tree is a container printing to more than 20 bytes.",
              "hash of the printed tree for non-trivial trees",
              [SIM_ALLOC, SIM_IN, SIM_OUT], probes=["nonfinite_printed"]),
-    "C09": P("asan", "fault_enumeration", (2500, 25), (600000, 480),
+    "C09": P("asan", "fault_enumeration", (5000, 30), (600000, 480),
              "for every generated tree and both formats, the capacity fault 'caller buffer holds n bytes' is enumerated for every n in [0, text length + 16]; the buffer ends flush against an inaccessible page and has canaries in front. Oracles: nothing outside [0,n) is touched, true means the complete zero-terminated text of the allocating print, n >= length+1+5 succeeds, success is monotone in n. Distinct by (text hash, format, n - length); counted only for texts longer than 8 bytes.",
              "(printed text, format, n - text length) triples",
              [SIM_ALLOC, SIM_OUT]),
-    "C11": P("asan", "exploration", (12000, 20), (3000000, 420),
+    "C11": P("asan", "exploration", (20000, 25), (3000000, 420),
              "trees with references, constant keys and nested containers are duplicated; the copy must equal the model of the source (references resolved to owned copies, reference bits cleared, constant keys shared), compare equal, print identically, have no sibling links and share no owned block with the source (address sets disjoint, every pointer a live ledger block); then 5-30 edit/delete steps on source and copy in random order: a tree not involved in a call must never change. Chains of 100..30000 containers and 2-5 node cycles built through the API must be refused beyond CJSON_CIRCULAR_LIMIT without leak, stack overflow (8 MiB stack) or modification of the source. Distinct by model-state hash.",
              "hash of the model state after a non-trivial step (duplicate of a container with >= 2 items, deep/cyclic scenario, or mutation)",
              [SIM_ALLOC], probes=["dup_with_references", "dup_with_constant_keys", "dup_deep_refused", "dup_deep_accepted", "dup_cyclic_refused"]),
-    "C16": P("asan", "exploration", (10000, 20), (2500000, 420),
+    "C16": P("asan", "exploration", (60000, 25), (2500000, 420),
              "documents with distinct keys over an alphabet containing / ~ 0 1 - and the empty key; patches of 1-8 operations are assembled step by step against the evolving reference state (valid pointers incl. ~0 ~1 and '-', deliberate failures: missing member, index out of range, failed test, missing op/path/value/from, move into own child) and applied with cJSONUtils_ApplyPatchesCaseSensitive; status must be 0 exactly when the reference RFC 6902 evaluator succeeds and then the documents must be equal (objects as sets). patch_corrupt faults (type swaps, member deletion, number in 'from', non-array root, odd pointers) are judged for robustness only: no crash, well-formed document, balanced ledger. Distinct by (patch text, document text) for patches the reference accepts.",
              "(patch, document) pairs that the reference evaluator applies successfully",
              [SIM_ALLOC, SIM_IN], probes=["patch_succeeded", "patch_failed_as_predicted", "patch_corrupt_survived"]),
-    "C17": P("asan", "exploration", (10000, 20), (2500000, 420),
+    "C17": P("asan", "exploration", (80000, 25), (2500000, 420),
              "pairs (from, to): independent documents or 'to' derived from 'from' by 1-6 edits, keys including / and ~; cJSONUtils_GeneratePatchesCaseSensitive must return an array of well-formed operations that, applied to a copy of 'from' by the library and to the model by the reference evaluator, yields 'to'; empty iff equal; both inputs must keep exactly their nodes (order free) and stay well-formed, and 3-15 follow-up edits on them are judged against the list/map model. Distinct by (patch text, from text) for non-empty patches.",
              "(generated patch, from-document) pairs with a non-empty patch",
              [SIM_ALLOC, SIM_IN]),
-    "C18": P("asan", "exploration", (10000, 20), (2500000, 420),
+    "C18": P("asan", "exploration", (80000, 25), (2500000, 420),
              "(target, patch) pairs incl. non-object patches, null members at every depth, non-object targets and keys differing only in case: cJSONUtils_MergePatchCaseSensitive must equal the reference RFC 7396 merge (objects as sets) and leave the patch untouched; (from, to) pairs with 'to' free of null members: the generated merge patch applied by the library and by the reference must yield 'to' (NULL = no change); inputs keep their nodes and stay well-formed; follow-up edits are judged. Distinct by (target text, patch text) / (from text, to text).",
              "(target, patch) and (from, to) pairs with a non-trivial patch",
              [SIM_ALLOC, SIM_IN], probes=["merge_null_member"]),
-    "C19": P("asan", "exploration", (16000, 20), (4000000, 420),
+    "C19": P("asan", "exploration", (120000, 25), (4000000, 420),
              "objects of 0-40 members with duplicate, case-variant, empty and high-byte keys are sorted (both variants); the result must be the same nodes in non-decreasing key order, a second sort must keep it (with all-distinct keys: the very same order), the structural walk must pass (in particular first->prev == last), printing must equal a freshly built twin, and every following append/insert/detach/replace/delete is judged against the list/map model. Distinct by model-state hash.",
              "hash of the model state after a non-trivial step (sort of >= 3 members or a judged mutation of a sorted object)",
              [SIM_ALLOC], probes=["sorted", "sort_duplicate_keys"]),
+
+    "C08": P("asan", "fault_enumeration", (8000, 30), (400000, 480),
+             "a scenario is a fault-free prefix history (2-25 steps), one target call (parse entry points, print variants, every create*, bulk constructors, Add*ToObject helpers, AddItemToObject, AddItemReferenceTo*, Duplicate, ReplaceItemInObject*, SetValuestring growing) and a fault-free suffix; the target is first run fault-free to count its n allocation requests, then the scenario is replayed once per k in 1..n with request k refused (custom malloc, or default malloc/realloc). Oracles: the call completes normally or returns its documented failure value; on failure the ledger live set equals the one before the call, every pre-existing root passes the structural walk and prints the same two texts; the suffix runs without crash and the final ledger is balanced. Distinct by (target call kind, k, allocator side, outcome); non-trivial when k >= 2.",
+             "(target call kind, k, allocator side, outcome) tuples with k >= 2",
+             [SIM_ALLOC, SIM_IN], probes=["failed_cleanly", "completed_despite_failure"], hang_s=120),
+
+    "C01": P("asan", "fault_enumeration", (400, 30), (300000, 480),
+             "the document store is filled with texts serialised from random model values (all token kinds, escapes, surrogates, 63-character numbers, BOM, whitespace), token soups, raw blocks and 998..100000-deep nestings; 0-2 sampled storage faults (bit flip, byte replace, lost/duplicated span, inserted structural byte, splice, zero byte, ...) are applied, then the short-write fault is ENUMERATED: every truncation point n in [0,|t|] (first 3000 bytes), each once as exact-length unterminated buffer and once zero-terminated, read through 1-3 of the four entry points (both require_null_terminated values, with/without return_parse_end, both allocator configurations). The bytes end flush against an inaccessible page and are read-only during the call. Oracles: no access outside the declared bytes, input unchanged, call returns, result NULL or a tree that passes a bounded structural walk, prints in both formats and deletes; ledger live set afterwards equals the one before. Distinct by (byte class before the cut, byte class after the cut, entry point, terminated?) for non-empty documents.",
+             "(byte class left of the cut, byte class right of the cut, entry point, terminated, truncated?) tuples",
+             [SIM_ALLOC, SIM_IN], probes=["deep_document"], hang_s=120),
+    "C03": P("asan", "exploration", (80000, 25), (8000000, 420),
+             "stored valid documents, token soups and deep nestings are hit by single-edit storage faults biased to each grammar rule the statement names (bracket swap/drop, separator drop/duplicate, quote drop, key replaced by number/literal/word, truncation, literal misspelling and case change, digits removed, dangling point/exponent, unknown escape, \\u with 0-3 or non-hex digits, lone/reversed surrogates, nesting 999..1100 and 1e5, trailing garbage); an independent dialect recogniser classifies the faulted bytes as outside / inside / unspecified (demanding only what every reading of the statement demands); OUTSIDE => all entry points return NULL and the ledger is unchanged by the call. Distinct by (fault kind, reason the recogniser rejects).",
+             "(fault kind, rejection reason) pairs classified 'outside'",
+             [SIM_ALLOC, SIM_IN], probes=["verdict_outside", "verdict_inside", "verdict_unspecified", "deep_document"], hang_s=120),
+    "C10": P("asan", "exploration", (50000, 25), (5000000, 420),
+             "histories of 2-6 document groups (intact, corrupted, truncated, with trailing bytes/whitespace/zero bytes, with and without terminator), each read 1-3 times through the four entry points with and without return_parse_end; the global error position carries over between calls. Oracles: on success buf <= end <= buf+n, the bytes before end parse alone to an equal tree, cJSON_GetErrorPtr()==NULL; with require_null_terminated success iff the non-required parse succeeds and the trailer is whitespace then a zero byte (trailers with bytes after a zero byte are left open); on failure NULL, return_parse_end == cJSON_GetErrorPtr() inside [buf, buf+n-1]. Distinct by (entry, flags, outcome, trailer class, last fault).",
+             "(entry point, flags, outcome, trailer class, last fault kind) tuples",
+             [SIM_ALLOC, SIM_IN], probes=["trailer_ws-then-zero", "trailer_no-zero-byte", "trailer_garbage", "trailer_zero-then-more", "trailer_no-value"], hang_s=120),
+
+    "C20": P("tsan", "exploration", (20000, 30), (600000, 540),
+             "2-4 tasks, each with a private sequence of library calls (parse with return_parse_end, all print variants, edits, compare, duplicate, minify, pointer/patch/merge/sort utilities, delete) on private trees and buffers, hooks installed before the tasks start; the tasks are cooperative fibers on one OS thread and every switch (at allocator calls and at the guarded CJSON_VERIF_YIELD sites inside parse/print/delete/duplicate/sort/patch loops) is taken from the plan's seeded choice list (uniform with per-run switch probability, or a few PCT-style change points). Oracles: (A) each task's trace equals the trace of the same sequence run alone; (B) ThreadSanitizer, told that switches do not synchronise, reports no conflicting accesses (only global_error is suppressed). Distinct by the hash of the (task, yield site, next task) sequence; non-trivial with >= 2 preemptions inside library calls.",
+             "hash of the executed (task, yield-site, next task) switch sequence with >= 2 preemptions",
+             [SIM_ALLOC, SIM_IN, SIM_OUT, SIM_SCHED], assumptions=["the library is built -fsanitize=thread -O0; the harness is not instrumented", "ThreadSanitizer suppression: race:global_error (the documented exception) only"], workers=12, hang_s=120),
 }
